@@ -155,6 +155,7 @@ func DumpIDL(ast *parser.Thrift) (string, error) {
 					required = "required "
 				}
 				sb.writeString(fmt.Sprintf("%d: %s%s %s", ag.ID, required, typeName(ag.Type), ag.Name))
+				printAnnotation(&sb, ag.Annotations)
 				if i != len(f.Arguments)-1 {
 					sb.writeString(", ")
 				}
@@ -171,6 +172,7 @@ func DumpIDL(ast *parser.Thrift) (string, error) {
 						required = "required "
 					}
 					sb.writeString(fmt.Sprintf("%d: %s%s %s", th.ID, required, typeName(th.Type), th.Name))
+					printAnnotation(&sb, th.Annotations)
 					if i != len(f.Arguments)-1 {
 						sb.writeString(", ")
 					}
